@@ -103,4 +103,24 @@ def compareAllOut (E : Asm.Engine) (cfg : Asm.Config) (o1 o2 : Parser.Ord) (gith
   | (o, _, true) => (o, false)
   | (o, d, false) => if d && github then (o ++ githubNotice, false) else (o, true)
 
+
+/-- `Cli.run` with the standard output of `regex compare` filled in (every other command as in `Cli.run`) -/
+def runWithView (E : Asm.Engine) (cfg : Asm.Config) (o1 o2 : Parser.Ord) (lint : Bytes → Bool) (versionOk : Bool)
+    (inv : Cli.Invocation) (t : Cli.Tree) : Option Cli.RunResult :=
+  match Cli.run E cfg o1 o2 lint versionOk inv t with
+  | none => none
+  | some r =>
+    match inv.cmd with
+    | .compare =>
+      let known := match inv.output with
+        | some v => v == b!"text" || v == b!"github"
+        | none => true
+      let github := inv.output == some b!"github"
+      if !known || !Cli.oneTarget inv then some r
+      else if inv.all then some { r with stdout := (compareAllOut E cfg o1 o2 github t).1 }
+      else match inv.args with
+        | [arg] => some { r with stdout := (compareOut E cfg o1 o2 github t arg).1 }
+        | _ => some r
+    | _ => some r
+
 end Crs.CompareView
